@@ -5,7 +5,7 @@ import os
 import re
 from fractions import Fraction
 
-from .. import form, q, symeval, trace
+from .. import boolq, form, q, symeval, trace
 from ..core import AnalysisError, const, dotted, norm, calls_in, call_name, parent_map
 from ..form import Rat
 from ..harness import VERIF_DIR
@@ -267,13 +267,30 @@ def check_parse_numbers(ctx):
     alltxt = " | ".join(" ".join(c.key() + ("+" if p else "-") for c, p in o.conds) for o in errs)
     ctx.ob("C13.3", site, "call:any(" in alltxt or "any(" in alltxt, "characters outside the number syntax are rejected", loc=prog.loc(m, f), msg="the character whitelist check is gone")
     ctx.ob("C13.3", site, "cmp_eq($w - str:''(),0)+" in alltxt or "str:''()" in alltxt, "an empty piece (e.g. '3,,4' or '3:') is rejected", loc=prog.loc(m, f), msg="the empty-piece check is gone")
-    ctx.ob("C13.3", site, has_guard(m, f, "step == 0") is not None, "a zero step is rejected", loc=prog.loc(m, f), msg="the zero-step check is gone")
+    # a zero step is rejected: some error exit is taken under `<step> == 0`, where <step> is the middle piece of a three-piece group
+    zero_step = False
+    for o in errs:
+        for c, pol in o.conds:
+            at = c.as_atom("cmp_eq") if isinstance(c, Rat) else None
+            if pol and at is not None and isinstance(at.args[0], Rat) and at.args[1].is_zero():
+                if any(a.func == "getitem" and isinstance(a.args[1], Rat) and a.args[1].const_value() == 1 and "m:split(" in a.key for a in at.args[0].atoms(deep=True)):
+                    zero_step = True
+    ctx.ob("C13.3", site, zero_step or has_guard(m, f, "step == 0") is not None, "a zero step is rejected", loc=prog.loc(m, f), msg="the zero-step check is gone")
     # more than three colon pieces: an error outcome whose conditions say len(colonList) is neither 1 nor <= 3
     three = False
     for o in errs:
-        ks = [(c.key(), p) for c, p in o.conds]
-        if any("cmp_le(len(" in k and ",3)" in k and not p for k, p in ks):
-            three = True
+        # some error exit is taken whenever a group has more than three pieces: its path condition implies  3 < len(pieces)
+        lens = set()
+        for c, p in o.conds:
+            for a in (c.atoms(deep=True) if isinstance(c, Rat) else []):
+                if a.func == "len" and isinstance(a.args[0], Rat) and "m:split(" in a.args[0].key() and "str:':'()" in a.args[0].key():
+                    lens.add(a.args[0].key())
+                    target = form.apply("cmp_lt", [Rat.const(3), Rat.of_atom(a)])
+                    try:
+                        if boolq.implies(boolq.conj(o.conds), boolq.prop(target)):
+                            three = True
+                    except boolq.TooBig:
+                        pass
     ctx.ob("C13.3", site, three, "more than three colon-separated pieces are rejected", loc=prog.loc(m, f),
            msg="a vector such as 0:6:6:12 is no longer rejected: it is silently read as start:step:end")
     # semantic form of the grammar, from the event trace with the comma loop unrolled twice:
@@ -347,8 +364,11 @@ def check_parse_numbers(ctx):
         piece = lambda j: form.apply("getitem", [P, Rat.const(j)])
         want_step = form.apply("ifexp", [form.apply("cmp_eq", [form.apply("len", [P]), Rat.const(3)]), piece(1), Rat.const(1)])
         e = evs[0]
-        ok = len(e["args"]) == 2 and isinstance(e["args"][1], Rat) and e["args"][1].equals(want_step) and \
-            any(c.key() == "$is_date" and pol for c, pol in e["conds"] if isinstance(c, Rat))
+        try:
+            dated = boolq.implies(boolq.conj(e["conds"]), boolq.prop(Rat.sym("is_date")))
+        except boolq.TooBig:
+            dated = any(c.key() == "$is_date" and pol for c, pol in e["conds"] if isinstance(c, Rat))
+        ok = len(e["args"]) == 2 and isinstance(e["args"][1], Rat) and e["args"][1].equals(want_step) and dated
         first = e["args"][0].as_atom() if isinstance(e["args"][0], Rat) else None
         ok_first = first is not None and first.func == "pymin" and isinstance(first.args[0], Rat) and first.args[0].equals(piece(0))
         ctx.ob("C13.6", site, ok and ok_first, "group %d: date ranges start at the first date and step by calendar days (get_date(date, step))" % k,
